@@ -4,6 +4,7 @@ package openflow13
 
 import (
 	"encoding/binary"
+	"errors"
 
 	"github.com/contiv/libOpenflow/common"
 	log "github.com/sirupsen/logrus"
@@ -118,6 +119,9 @@ func (g *GroupMod) UnmarshalBinary(data []byte) error {
 	for n < int(g.Header.Length) {
 		bkt := new(Bucket)
 		bkt.UnmarshalBinary(data[n:])
+		if bkt.Len() == 0 {
+			return errors.New("decoded a bucket of length 0")
+		}
 		g.Buckets = append(g.Buckets, *bkt)
 		n += int(bkt.Len())
 	}
@@ -203,6 +207,9 @@ func (b *Bucket) UnmarshalBinary(data []byte) error {
 		a, err := DecodeAction(data[n:])
 		if err != nil {
 			return err
+		}
+		if a.Len() == 0 {
+			return errors.New("decoded an action of length 0")
 		}
 		b.Actions = append(b.Actions, a)
 		n += int(a.Len())
